@@ -1,7 +1,9 @@
 package ovsdb
 
 import (
+	"bytes"
 	"encoding/json"
+	"strconv"
 )
 
 const (
@@ -129,4 +131,44 @@ func ovsSliceToGoNotation(val interface{}) (interface{}, error) {
 		return val, nil
 	}
 	return val, nil
+}
+
+// unmarshalExact decodes like json.Unmarshal into interface{} values, except
+// that an integer literal float64 cannot hold exactly is decoded as an int:
+// OVSDB integers are 64 bit wide
+func unmarshalExact(b []byte, v interface{}) error {
+	d := json.NewDecoder(bytes.NewReader(b))
+	d.UseNumber()
+	if err := d.Decode(v); err != nil {
+		return err
+	}
+	switch p := v.(type) {
+	case *interface{}:
+		*p = exactNumbers(*p)
+	case *[]interface{}:
+		exactNumbers(*p)
+	case *map[string]interface{}:
+		exactNumbers(*p)
+	}
+	return nil
+}
+
+func exactNumbers(v interface{}) interface{} {
+	switch x := v.(type) {
+	case json.Number:
+		f, _ := x.Float64()
+		if i, err := strconv.ParseInt(string(x), 10, 64); err == nil && strconv.FormatFloat(f, 'f', -1, 64) != string(x) {
+			return int(i)
+		}
+		return f
+	case []interface{}:
+		for i := range x {
+			x[i] = exactNumbers(x[i])
+		}
+	case map[string]interface{}:
+		for k := range x {
+			x[k] = exactNumbers(x[k])
+		}
+	}
+	return v
 }
